@@ -4,7 +4,7 @@ set -e
 id=$1; name=$2; src=/tmp/seed/out-$id; dst=/verif/seeded/$id-$name
 mkdir -p $dst
 cp $src/demo.py $dst/; cp $src/notes.md $dst/ 2>/dev/null || true
-cd /repo
+cd ${SEED_REPO:-/repo}
 test -z "$(git status --porcelain --untracked-files=no)" || { echo "/repo dirty"; exit 1; }
 if ! git apply $src/patch.diff 2>/dev/null; then
   git apply --3way $src/patch.diff || { echo "PATCH NEEDS MANUAL REBASE"; git checkout -- .; exit 2; }
